@@ -6,7 +6,7 @@
 (* result is computed by the specification module of that function.        *)
 (* Divergences are collected as data.  TRACE / OUT as in Trace_Session.    *)
 (***************************************************************************)
-EXTENDS SpendSetup, Flags, Amounts, Bech32, Json, IOUtils, TLC
+EXTENDS SpendSetup, Flags, Amounts, Bech32, Assembler, Json, IOUtils, TLC
 
 Tr == ndJsonDeserialize(IOEnv.TRACE)
 OutFile == IOEnv.OUT
@@ -106,6 +106,10 @@ TapExpected(ev) == [addr |-> TRUE, witness |-> TRUE, sighash |-> TRUE, code |-> 
 TapObserved(ev) == IF ev.code # 0 THEN [addr |-> FALSE, witness |-> FALSE, sighash |-> FALSE, code |-> ev.code]
                    ELSE LET c == TapChecks(ev) IN [addr |-> c.addr, witness |-> c.witness, sighash |-> c.sighash, code |-> 0]
 
+(* ---- C07: btcc <tokens...> ---- *)
+BtccExpected(ev) == LET c == Compile(ev.tokens) IN [code |-> 0, out |-> BytesToHex(c[2])]
+BtccObserved(ev) == [code |-> ev.code, out |-> ev.out]
+
 Init == l = 1 /\ divs = <<>> /\ cov = {} /\ stats = [calls |-> 0]
 
 Judge(ev, exp, obs, class) ==
@@ -123,6 +127,7 @@ Next ==
        ELSE IF ev.e = "Tx" THEN
             (IF TxExpected(ev).ok = "unspec" THEN /\ stats' = [stats EXCEPT !.calls = @ + 1] /\ cov' = cov \cup {<<"Tx", "trailing-bytes">>} /\ UNCHANGED divs
              ELSE Judge(ev, TxExpected(ev), TxObserved(ev), <<"Tx", ev.ok, IF ev.ok THEN ev.haswit ELSE FALSE, IF ev.ok THEN Len(ev.vin) ELSE 0>>))
+       ELSE IF ev.e = "Btcc" THEN Judge(ev, BtccExpected(ev), BtccObserved(ev), <<"Btcc", ev.kind>>)
        ELSE IF ev.e = "Tap" THEN Judge(ev, TapExpected(ev), TapObserved(ev), <<"Tap", ev.mode, Len(ev.scripts), ev.sighash # "">>)
        ELSE IF ev.e = "Amt" THEN Judge(ev, AmtExpected(ev), AmtObserved(ev), <<"Amt", ev.ok>>)
        ELSE IF ev.e = "FlagList" THEN Judge(ev, FlagListExpected(ev), FlagListObserved(ev), <<"FlagList", ev.accepted, Len(ev.flags)>>)
